@@ -25,6 +25,7 @@ let step_of (st : string) : step =
   | ["C"] | ["c"] -> SCommit
   | ["X"] -> SClear
   | ["N"] -> SNewBatch
+  | ["F"] -> SFlush
   | ["G"; k] -> SGet (hb k)
   | ["E"; k] -> SExist (hb k)
   | ["T"; ks] -> SMultiGet (List.map hb (split_on ',' ks))
